@@ -15,7 +15,7 @@ func init() {
 	register("C04", core.PropertyMeta{
 		Explanation: "Decides structural clauses of the hinted-handoff queue contract on every path: D1 an append is acknowledged only after its block was written and fsynced (the buffered path is a recorded finding); " +
 			"D2 buffered blocks are flushed before a segment file is closed; D3 queue.Empty is a function of queue content (head offset, size, buffer) and never of the file cursor, and every 'at end' comparison in the package is pos == size-footerSize; " +
-			"D4 SendWrite advances the queue only after the target answered (success or permanent rejection), on end-of-queue, or for an undecodable block; D5 the footer is written and synced before the in-memory head offset moves, blocks are synced before size grows; " +
+			"D4 SendWrite advances the queue only after the target answered (success or permanent rejection) for a block read by Current in the same call, or for an undecodable block - never at the end of the queue, where only an exhausted head segment may be trimmed; an empty processor is purged only after CloseIfEmpty closed it with writers excluded; D5 the footer is written and synced before the in-memory head offset moves, blocks are synced before size grows; " +
 			"D6 frozen table of every site that may discard queued data, and the inactive-processor purge is guarded by Empty or (inactive and older than max age); D7 the batch split loop moves its window without gap or overlap and reports success only when the last window ended at len(points); D8 unmarshalWrite slices are length-guarded; D9 flush before tail rotation, segments sorted by numeric id, head=first/tail=last; D10 every caller of addSegment stores queue.tail before a success return. " +
 			"NOT decided: ordering across concurrent appenders, crash images of torn blocks, the size limit arithmetic.",
 		RuleText:    "obligation = (rule, function, site); must-precede / outcome facts / path exploration over go/cfg; who-may-call tables; comparison shape of segment.pos vs segment.size",
